@@ -270,6 +270,15 @@ type Spec struct {
 	CondTags func(pkg *packages.Package, cond ast.Expr, branch bool) []Tag
 	// AssignTags optionally returns tags for an assignment statement (stores into fields / map elements).
 	AssignTags func(pkg *packages.Package, as *ast.AssignStmt) []Tag
+	// Visit, when set, is called in the recording pass for every CFG node with the state before it.
+	Visit func(pkg *packages.Package, n ast.Node, st *State)
+	// AssumeNonNil marks calls whose (single) result is to be assumed non-nil ("what if this failed / panicked").
+	AssumeNonNil func(pkg *packages.Package, call *ast.CallExpr) bool
+	// Contradict lists pairs of tags that cannot both hold: a state establishing both on every path is infeasible.
+	Contradict [][2]Tag
+	// Split lists tags on which states are partitioned (trace partitioning): paths that differ in
+	// whether such a tag is established are analysed separately instead of being merged at joins.
+	Split []Tag
 	// Depth is the number of callee frames summarised below the analysed function.
 	Depth int
 	// NoDescend prevents summarising a callee (its own tags still apply).
@@ -453,7 +462,7 @@ func (sp *Spec) run(pkg *packages.Package, ft *ast.FuncType, body *ast.BlockStmt
 		return true
 	})
 	r.inLoop = loopBlocks(g)
-	in := make([]*State, len(g.Blocks))
+	in := make([]map[string]*State, len(g.Blocks))
 	if len(g.Blocks) == 0 {
 		r.res.Sum = &Summary{MustAll: map[Tag]bool{}, MustOk: map[Tag]bool{}, MustFail: map[Tag]bool{}, May: map[Tag]bool{}}
 		return r.res
@@ -468,29 +477,56 @@ func (sp *Spec) run(pkg *packages.Package, ft *ast.FuncType, body *ast.BlockStmt
 			start.Nil[o] = isNil
 		}
 	}
-	in[0] = start
+	// trace partitioning: states that differ on a split tag are kept apart at joins
+	pkey := func(st *State) string {
+		if len(sp.Split) == 0 {
+			return ""
+		}
+		var k []string
+		for _, t := range sp.Split {
+			if st.Must[t] {
+				k = append(k, t)
+			}
+		}
+		return strings.Join(k, "|")
+	}
+	in[0] = map[string]*State{pkey(start): start}
 	work := []*cfg.Block{g.Blocks[0]}
 	queued := map[*cfg.Block]bool{g.Blocks[0]: true}
 	steps := 0
+	sortedKeys := func(m map[string]*State) []string {
+		var ks []string
+		for k := range m {
+			ks = append(ks, k)
+		}
+		sort.Strings(ks)
+		return ks
+	}
 	for len(work) > 0 && steps < 20000 {
 		steps++
 		b := work[0]
 		work = work[1:]
 		queued[b] = false
-		outs := r.block(b, in[b.Index].copy())
-		for i, s := range b.Succs {
-			o := outs[i]
-			if o == nil {
-				continue
-			}
-			if in[s.Index] == nil {
-				in[s.Index] = o.copy()
-			} else if !in[s.Index].join(o) {
-				continue
-			}
-			if !queued[s] {
-				queued[s] = true
-				work = append(work, s)
+		for _, pk := range sortedKeys(in[b.Index]) {
+			outs := r.block(b, in[b.Index][pk].copy())
+			for i, s := range b.Succs {
+				o := outs[i]
+				if o == nil {
+					continue
+				}
+				k := pkey(o)
+				if in[s.Index] == nil {
+					in[s.Index] = map[string]*State{}
+				}
+				if cur := in[s.Index][k]; cur == nil {
+					in[s.Index][k] = o.copy()
+				} else if !cur.join(o) {
+					continue
+				}
+				if !queued[s] {
+					queued[s] = true
+					work = append(work, s)
+				}
 			}
 		}
 	}
@@ -500,15 +536,17 @@ func (sp *Spec) run(pkg *packages.Package, ft *ast.FuncType, body *ast.BlockStmt
 		if in[b.Index] == nil || !b.Live {
 			continue
 		}
-		outs := r.block(b, in[b.Index].copy())
-		if len(b.Succs) == 0 && outs != nil {
-			// fell off the end or panicked: a block that ends without return in a function
-			// that has no results is an implicit return.
-			if endsWithReturn(b) || r.endsInNoReturn(b) {
-				continue
-			}
-			if outs[0] != nil {
-				r.exit(nil, body.Rbrace, outs[0])
+		for _, pk := range sortedKeys(in[b.Index]) {
+			outs := r.block(b, in[b.Index][pk].copy())
+			if len(b.Succs) == 0 && outs != nil {
+				// fell off the end or panicked: a block that ends without return in a function
+				// that has no results is an implicit return.
+				if endsWithReturn(b) || r.endsInNoReturn(b) {
+					continue
+				}
+				if outs[0] != nil {
+					r.exit(nil, body.Rbrace, outs[0])
+				}
 			}
 		}
 	}
@@ -585,7 +623,13 @@ func (r *runner) block(b *cfg.Block, st *State) []*State {
 		}
 	}
 	for i := 0; i < n; i++ {
+		if r.record && r.sp.Visit != nil {
+			r.sp.Visit(r.pkg, b.Nodes[i], st)
+		}
 		r.node(b, b.Nodes[i], st)
+	}
+	if cond != nil && r.record && r.sp.Visit != nil {
+		r.sp.Visit(r.pkg, cond, st)
 	}
 	switch len(b.Succs) {
 	case 0:
@@ -617,11 +661,36 @@ func (r *runner) block(b *cfg.Block, st *State) []*State {
 		r.refine(cond, true, t)
 		r.refine(cond, false, f)
 	}
+	if t.Must[deadTag] || r.contradictory(t) {
+		t = nil
+	}
+	if f.Must[deadTag] || r.contradictory(f) {
+		f = nil
+	}
 	return []*State{t, f}
 }
 
+func (r *runner) contradictory(st *State) bool {
+	for _, c := range r.sp.Contradict {
+		if st.Must[c[0]] && st.Must[c[1]] {
+			return true
+		}
+	}
+	return false
+}
+
+// deadTag marks a state as infeasible: a CondTags result "#not:X" on an edge where X is established
+// on every path (the rule states that X and this edge contradict each other).
+const deadTag = "#dead"
+
 func (r *runner) addTag(st *State, t Tag) {
 	if t == "" {
+		return
+	}
+	if strings.HasPrefix(t, "#not:") {
+		if st.Must[t[5:]] {
+			st.Must[deadTag] = true
+		}
 		return
 	}
 	if strings.HasPrefix(t, "-") {
@@ -819,6 +888,8 @@ func (r *runner) node(b *cfg.Block, n ast.Node, st *State) {
 			return
 		}
 		r.evalExpr(b, x.X, st)
+	case *ast.ValueSpec:
+		r.valueSpec(b, x, st)
 	case *ast.DeclStmt:
 		if gd, ok := x.Decl.(*ast.GenDecl); ok {
 			for _, s := range gd.Specs {
@@ -826,24 +897,7 @@ func (r *runner) node(b *cfg.Block, n ast.Node, st *State) {
 				if !ok {
 					continue
 				}
-				for _, v := range vs.Values {
-					r.evalExpr(b, v, st)
-				}
-				for i, nm := range vs.Names {
-					o := r.info.Defs[nm]
-					if o == nil {
-						continue
-					}
-					if len(vs.Values) == 0 {
-						if nillable(o.Type()) {
-							st.Nil[o] = isNil
-						} else if bt, ok := o.Type().Underlying().(*types.Basic); ok && bt.Kind() == types.Bool {
-							st.Bool[o] = isFalse
-						}
-					} else if len(vs.Values) == len(vs.Names) {
-						r.bind(o, vs.Values[i], st)
-					}
-				}
+				r.valueSpec(b, vs, st)
 			}
 		}
 	case *ast.ReturnStmt:
@@ -951,7 +1005,14 @@ func (r *runner) evalExpr(b *cfg.Block, e ast.Expr, st *State) {
 		r.evalExpr(b, x.X, st)
 	case *ast.BinaryExpr:
 		r.evalExpr(b, x.X, st)
-		r.evalExpr(b, x.Y, st)
+		if x.Op == token.LAND || x.Op == token.LOR {
+			// the right operand is evaluated conditionally: its events are may-events
+			saved := cp(st.Must)
+			r.evalExpr(b, x.Y, st)
+			st.Must = saved
+		} else {
+			r.evalExpr(b, x.Y, st)
+		}
 	case *ast.IndexExpr:
 		r.evalExpr(b, x.X, st)
 		r.evalExpr(b, x.Index, st)
@@ -1126,6 +1187,9 @@ func (r *runner) bind(o types.Object, e ast.Expr, st *State) {
 
 // nonNilCall: constructors that never return nil.
 func (r *runner) nonNilCall(c *ast.CallExpr, st *State) bool {
+	if r.sp.AssumeNonNil != nil && r.sp.AssumeNonNil(r.pkg, c) {
+		return true
+	}
 	f := core.Callee(r.info, c)
 	if f == nil || f.Pkg() == nil {
 		return false
@@ -1474,6 +1538,26 @@ func (r *runner) condValue(cond ast.Expr, st *State) (known, val bool) {
 			}
 		}
 	case *ast.BinaryExpr:
+		if x.Op == token.LAND || x.Op == token.LOR {
+			ka, va := r.condValue(x.X, st)
+			kb, vb := r.condValue(x.Y, st)
+			if x.Op == token.LAND {
+				if (ka && !va) || (kb && !vb) {
+					return true, false
+				}
+				if ka && va && kb && vb {
+					return true, true
+				}
+			} else {
+				if (ka && va) || (kb && vb) {
+					return true, true
+				}
+				if ka && !va && kb && !vb {
+					return true, false
+				}
+			}
+			return false, false
+		}
 		if x.Op != token.EQL && x.Op != token.NEQ {
 			return false, false
 		}
@@ -1512,4 +1596,32 @@ func (r *runner) foreignIface(f *types.Func) bool {
 		return false
 	}
 	return f.Pkg() == nil || !strings.HasPrefix(f.Pkg().Path(), core.Module)
+}
+
+// ExprNil classifies an expression under the state's facts: 1 = nil, 2 = non-nil, 0 = unknown.
+func (s *State) ExprNil(info *types.Info, e ast.Expr) int8 {
+	r := &runner{info: info, sp: &Spec{}}
+	return r.exprNil(e, s)
+}
+
+// valueSpec handles `var a, b T = x, y` (go/cfg emits the ValueSpec itself as a node).
+func (r *runner) valueSpec(b *cfg.Block, vs *ast.ValueSpec, st *State) {
+	for _, v := range vs.Values {
+		r.evalExpr(b, v, st)
+	}
+	for i, nm := range vs.Names {
+		o := r.info.Defs[nm]
+		if o == nil {
+			continue
+		}
+		if len(vs.Values) == 0 {
+			if nillable(o.Type()) {
+				st.Nil[o] = isNil
+			} else if bt, ok := o.Type().Underlying().(*types.Basic); ok && bt.Kind() == types.Bool {
+				st.Bool[o] = isFalse
+			}
+		} else if len(vs.Values) == len(vs.Names) {
+			r.bind(o, vs.Values[i], st)
+		}
+	}
 }
